@@ -28,6 +28,8 @@ MODES = {
     "ident": (["dconv", "-S"], lambda o: cal.Day(o).ymd().encode()),
     # not a sed mode, but the same reader: lines with a date pass unchanged, the others are dropped
     "dgrep": (["dgrep", ">=1601-01-01"], lambda o: cal.Day(o).ymd().encode()),
+    # an input format of digits only: there is no needle character to look for, the first run of digits of a line is tried
+    "digits": (["dconv", "-S", "-i", "%Y%m%d", "-f", "%F"], lambda o: cal.Day(o).ymd().encode()),
 }
 
 
@@ -52,6 +54,11 @@ def mk_line(rng, conv, kind, mode=None):
     """-> (input line bytes without terminator, expected output line bytes, number of dates)"""
     if kind == "empty":
         return b"", b"", 0
+    srcf = lambda o_: cal.Day(o_).ymd().encode()
+    if mode == "digits":
+        # one date per line and no digit in front of it
+        kind = {"near": "date", "two": "date", "zoned": "date"}.get(kind, kind)
+        srcf = lambda o_: ("%04d%02d%02d" % (cal.Day(o_).y, cal.Day(o_).m, cal.Day(o_).d)).encode()
     if kind == "zoned" and mode in ("ident", "dconv", "dadd", "dgrep"):
         # a stamp with a numeric UTC offset: the offset belongs to the stamp (the instant is printed in UTC), the bytes
         # behind it - a colon in particular - do not
@@ -92,7 +99,7 @@ def mk_line(rng, conv, kind, mode=None):
         if pre and (pre[-1:].isalnum() or pre[-1:] in b"-+:/."):
             pre += b" "
         post = rng.choice(RIGHT)
-        i_parts += [pre, cal.Day(o).ymd().encode(), post]
+        i_parts += [pre, srcf(o), post]
         o_parts += [pre, conv(o), post]
     tail = junk(rng, rng.choice([0, 0, 5, 30]), rng.random() < .2)
     if not tail and rng.random() < .5:
@@ -104,6 +111,8 @@ def mk_line(rng, conv, kind, mode=None):
 def mk_stream(rng, conv, shape, mode=None):
     """-> (input bytes, expected output bytes, info)"""
     lines = []
+    if mode == "digits" and shape not in ("small", "many-lines"):
+        shape = "small"
     if shape == "small":
         n = rng.choice([1, 2, 5, 20, 60])
         kinds = [rng.choice(["date", "date", "two", "junk", "empty", "near", "zoned"]) for _ in range(n)]
@@ -159,7 +168,7 @@ def mk_stream(rng, conv, shape, mode=None):
     elif shape == "many-lines":
         # beyond the 16384 line window
         n = rng.choice([16383, 16384, 16385, 20000, 40000])
-        base = [mk_line(rng, conv, rng.choice(["date", "junk", "empty", "two"])) for _ in range(50)]
+        base = [mk_line(rng, conv, rng.choice(["date", "junk", "empty", "two"]), mode if mode == "digits" else None) for _ in range(50)]
         lines = [base[rng.randrange(50)] for _ in range(n)]
     elif shape == "many-bytes":
         # beyond the 16 MiB window
